@@ -8,13 +8,13 @@ mod playback;
 
 // "any distance function": document i (embedding [i as f32]) is at an arbitrary
 // non-NaN distance DIST[i] from the query.  The arithmetic itself is C38.
-static mut DIST: [f32; 4] = [0.0; 4];
+static mut DIST: [f32; 8] = [0.0; 8];
 fn stub_l2(_a: &[f32], b: &[f32]) -> f32 {
     unsafe { DIST[b[0] as usize] }
 }
 
 fn topk<const M: usize>(kmax: usize) {
-    let mut d = [0.0f32; 4];
+    let mut d = [0.0f32; 8];
     let mut i = 0;
     while i < M {
         d[i] = kani::any();
@@ -97,6 +97,16 @@ verif_proof! { [C13]
     #[kani::unwind(7)]
     #[kani::stub(crate::simd::l2_distance_simd, stub_l2)]
     fn c13_topk_4docs() { topk::<4>(5); }
+}
+verif_proof! { [C13]
+    #[kani::unwind(8)]
+    #[kani::stub(crate::simd::l2_distance_simd, stub_l2)]
+    fn c13_topk_5docs() { topk::<5>(6); }
+}
+verif_proof! { [C13]
+    #[kani::unwind(9)]
+    #[kani::stub(crate::simd::l2_distance_simd, stub_l2)]
+    fn c13_topk_6docs() { topk::<6>(7); }
 }
 
 // empty query -> no hits (documented behaviour of the index; the dimension
